@@ -57,6 +57,10 @@ type UConn struct {
 
 	// echCtx is the echContex returned by makeClientHello()
 	echCtx *echClientContext
+
+	// presetApplied is set once buildHandshakeState has applied the preset of
+	// ClientHelloID, so that a later build does not apply it a second time.
+	presetApplied bool
 }
 
 // UClient returns a new uTLS client, with behavior depending on clientHelloID.
@@ -126,12 +130,24 @@ func (uconn *UConn) buildHandshakeState(loadSession bool) error {
 	} else {
 		uAssert(uconn.clientHelloBuildStatus == BuildByUtls || uconn.clientHelloBuildStatus == NotBuilt, "BuildHandshakeState failed: invalid call, client hello has already been built by go-tls")
 		if uconn.clientHelloBuildStatus == NotBuilt {
-			err := uconn.applyPresetByID(uconn.ClientHelloID)
-			if err != nil {
-				return err
+			if !uconn.presetApplied {
+				// [only once] make ClientHello based on ID. Applying the preset again
+				// (after BuildHandshakeStateWithoutSession) would replace the key share
+				// private keys while the cached spec keeps advertising the old shares.
+				err := uconn.applyPresetByID(uconn.ClientHelloID)
+				if err != nil {
+					return err
+				}
+				uconn.presetApplied = true
 			}
 			if uconn.omitSNIExtension {
 				uconn.removeSNIExtension()
+			}
+			// Pick up the session ticket / psk extensions the user has set since the
+			// preset was applied (by BuildHandshakeStateWithoutSession, or manually
+			// with ApplyPreset when HelloCustom is used).
+			if err := uconn.sessionController.syncSessionExts(); err != nil {
+				return err
 			}
 		}
 
